@@ -9,6 +9,7 @@ import (
 	"go/types"
 	"os"
 	"sort"
+	"strconv"
 	"strings"
 	"sync"
 	"time"
@@ -38,6 +39,7 @@ type Job struct {
 	Params     map[string]int64 `json:"params"`
 	Unwind     int              `json:"unwind"`
 	MaxPaths   int              `json:"maxpaths"`
+	MaxFailures int             `json:"max_failures"` // stop after this many counterexamples outside known findings (0 = never)
 	MapOrders  string           `json:"maporders"`
 	TimeoutS   int              `json:"timeout_s"`
 	NoValidate bool             `json:"novalidate"`
@@ -100,6 +102,7 @@ func runJob(l *Loaded, spec *Spec, job Job) (res JobResult) {
 	if job.MaxPaths > 0 {
 		e.MaxPaths = job.MaxPaths
 	}
+	e.MaxFailures = job.MaxFailures // 0 = explore everything
 	if job.MapOrders != "" {
 		e.MapOrders = job.MapOrders
 	}
@@ -153,6 +156,10 @@ func runJob(l *Loaded, spec *Spec, job Job) (res JobResult) {
 	defer func() {
 		if r := recover(); r != nil {
 			fill()
+			if en, ok := r.(jobEnough); ok {
+				res.Status, res.Error = "ok", fmt.Sprintf("stopped after %d counterexamples; remaining paths not explored", en.n)
+				return
+			}
 			if _, ok := r.(jobTimeout); ok {
 				res.Status, res.Error = "timeout", fmt.Sprintf("job exceeded %d s", job.TimeoutS)
 				return
@@ -170,6 +177,16 @@ func runJob(l *Loaded, spec *Spec, job Job) (res JobResult) {
 }
 
 func main() {
+	if pf := os.Getenv("VERIF_CPUPROFILE"); pf != "" { // debugging aid: CPU profile of the engine, stopped after VERIF_CPUPROFILE_S seconds (default 60)
+		if f, err := os.Create(pf); err == nil {
+			pprof.StartCPUProfile(f)
+			secs, _ := strconv.Atoi(os.Getenv("VERIF_CPUPROFILE_S"))
+			if secs <= 0 {
+				secs = 60
+			}
+			go func() { time.Sleep(time.Duration(secs) * time.Second); pprof.StopCPUProfile(); f.Close() }()
+		}
+	}
 	specFile := flag.String("spec", "", "JSON spec file")
 	outFile := flag.String("out", "", "write JSON result here (default stdout)")
 	// single-job convenience flags
